@@ -1,7 +1,7 @@
 from common import Ctx, RULES, standard_unit_leg
 
 PID = "C01"
-COQ_FILES = ["Model/Base.v", "Model/BpSpec.v", "Model/BpMachine.v", "Proofs/BpMachineProofs.v", "Properties/C01.v"]
+COQ_FILES = ["Model/Base.v", "Model/BpSpec.v", "Model/BpMachine.v", "Proofs/BpMachineProofs.v", "Gen/Bp.v", "Ties/BpTie.v", "Properties/C01.v"]
 RULES[PID] = ("e2e leg: seeded generated Rust programs (straight-line, branches, loops, recursion, generics with two instantiations, closures, shadowing); "
               "the harness's own ptrace single-stepper records the native instruction trace inside the user's functions; histories of break (address / "
               "file:line / function) / remove (number / address / non-existent) / continue with 0-3 commands per stop; Coq replays the history on the "
